@@ -38,7 +38,8 @@ def configure(tier, seed):
             else:
                 times40.append((h, m, s))
     CFG.update(tier=tier, years=years, times40=times40,
-               amounts=['0', '0.5', '1', '1.5', '2', '10', '100', '.5', '01', '5000', '2.50'],
+               amounts=['0', '0.5', '1', '1.5', '2', '10', '100', '.5', '01', '5000', '2.50', '0.6666666666666666', '1234567890123456',
+                        '123456789012345678901234567890.5'],
                from_years=[1, 1900, 1999, 2000, 2020, 9999])
     return {'shard_depth': 2, 'progress': True,
             'bounds': {'years': len(years), 'months': 12, 'days': '01-31', 'weeks': '01-53', 'times_alone': 'all 86400+1440+24',
@@ -222,10 +223,15 @@ def body(ch):
     elif form == 'duration':
         unit = ch.pick('unit', ('Y', 'M', 'W', 'D', 'TH', 'TM', 'TS'))
         a = ch.pick('amount', CFG['amounts'])
-        from decimal import Decimal
+        from decimal import Decimal, localcontext
         s = 'P%s%s%s' % ('T' if unit[0] == 'T' else '', a, unit[-1])
         canon = 'P%s%s%s' % ('T' if unit[0] == 'T' else '', Decimal(a), unit[-1])
-        check(ch, form, s, canon)
+        # the ambient decimal context is an environment answer the datatype must not depend on (the number package sets the
+        # importing thread's precision to 15)
+        prec = ch.pick('decimal_context_precision', (28, 15, 6))
+        with localcontext() as ctx:
+            ctx.prec = prec
+            check(ch, form if prec == 28 else form + '-under-prec-%d' % prec, s, canon)
     elif form == 'present':
         check(ch, form, 'PRESENT_REF', 'PRESENT_REF')
     elif form in ('date+time', 'date+part_of_day'):
